@@ -19,7 +19,7 @@ def make_msg(k):
         return mido.Message('control_change', channel=k % 16, control=(k // 16) % 128, value=(k // 2048) % 128)
     if fam == 1:
         return mido.MetaMessage('text', text='m%d' % k)
-    return mido.UnknownMetaMessage(0x60, data=[k % 256, (k // 256) % 256])
+    return mido.UnknownMetaMessage(0x60, data=[k % 256, (k // 256) % 256, (k // 65536) % 256])
 
 
 def ident(m):
@@ -28,7 +28,7 @@ def ident(m):
     if m.type == 'text':
         return int(m.text[1:])
     if m.type == 'unknown_meta':
-        return m.data[0] + 256 * m.data[1]
+        return m.data[0] + 256 * m.data[1] + 65536 * m.data[2]
     if m.type == 'end_of_track':
         return 0
     return -1
